@@ -137,3 +137,9 @@ package server
 //@   preserves *l, elems(l.handlers)
 //@   loop 1: invariant l != nil && l.PacketConn != nil && handlers6ok(l)
 //@   loop-terminates 1: the receive loop is meant to run until the connection is closed
+
+// the receive-buffer pool only ever holds *[]byte of capacity MaxDatagram: what New supplies here,
+// what HandleMsg4/6 put back (precondition cap(buf) >= 65536), and what Get is assumed to return
+//@ func init$1
+//@   modifies nothing
+//@   ensures typeis(ret, *[]byte) && ret.(*[]byte) != nil && cap(*ret.(*[]byte)) >= 65536
